@@ -194,6 +194,14 @@ def gen_cases(rng, tier):
     return cases
 
 
+def escalate(rng, case, tier):
+    """focused search after a broken obligation / correspondence: three more quick-size generations (about 1 200 cases)"""
+    out = []
+    for _ in range(3):
+        out += [c for c in gen_cases(rng, "quick") if c["kind"] == "prog"]
+    return out
+
+
 # ----------------------------------------------------------------------------- implementation adapter
 
 class Budget(BaseException):
@@ -696,10 +704,5 @@ def tags(case, obs):
     return t
 
 
-def shrink(case):
-    if case["kind"] != "prog":
-        return
-    # drop trailing events; drop single lines of the faulty flow that are not the injected one is not attempted (structure)
-    evs = case["events"]
-    for i in range(len(evs) - 1, 0, -1):
-        yield dict(case, events=evs[:i] + evs[i + 1:])
+# no `shrink`: a case is one small program plus the event script that walks the faulty flow to the injected statement;
+# dropping events would change which statement is reached (and with it what the oracle expects).
